@@ -70,15 +70,34 @@ def main():
     print("demo unchanged=%s with-change=%s; extra failing tests: %s; confirmed=%s" %
           (rc0, rc1, sorted(mut_fail - base_fail), confirmed))
     # run the check against /repo with the change applied
-    rc, o = sh("git -C /repo apply %s" % diff, "/verif")
-    if rc != 0:
-        print("diff does not apply to /repo:", o)
-        meta["applies_to_repo"] = False
-        return 2
-    try:
-        rc, o = sh("VERIF_OUT=/tmp/verif-seed-out ./check %s --tier quick" % pid, "/verif", timeout=3000)
-    finally:
-        sh("git -C /repo checkout -- .", "/verif")
+    private = "--private" in sys.argv
+    if private:
+        # while other sessions run clean-tree checks against /repo: apply the change to a
+        # private copy of /repo's tree and point the check at it (VERIF_REPO)
+        import tempfile
+        copy = tempfile.mkdtemp(prefix="shk-seedrepo-")
+        try:
+            sh("rsync -a --exclude .git /repo/ %s/" % copy, "/verif")
+            sh("git -C /repo archive HEAD | tar -x -C %s" % copy, "/verif")
+            rc, o = sh("git apply %s" % diff, copy)
+            if rc != 0:
+                print("diff does not apply to the copy of /repo:", o)
+                meta["applies_to_repo"] = False
+                return 2
+            rc, o = sh("VERIF_REPO=%s VERIF_OUT=%s-out ./check %s --tier quick" % (copy, copy, pid), "/verif", timeout=3000)
+        finally:
+            shutil.rmtree(copy, ignore_errors=True)
+            shutil.rmtree(copy + "-out", ignore_errors=True)
+    else:
+        rc, o = sh("git -C /repo apply %s" % diff, "/verif")
+        if rc != 0:
+            print("diff does not apply to /repo:", o)
+            meta["applies_to_repo"] = False
+            return 2
+        try:
+            rc, o = sh("VERIF_OUT=/tmp/verif-seed-out ./check %s --tier quick" % pid, "/verif", timeout=3000)
+        finally:
+            sh("git -C /repo checkout -- .", "/verif")
     lines = [l for l in o.split("\n") if l.startswith(("VIOLATION", "OK ", "KNOWN-FINDING"))]
     meta["check_exit"] = rc
     meta["check_output"] = lines
@@ -86,7 +105,8 @@ def main():
     meta["detected_with_failing_input"] = any(l.startswith("VIOLATION") and "no-failing-input-found" not in l for l in lines)
     meta["ran"] = ["%s (worktree, unchanged and with the change)" % demo,
                    "go test -vet=off -count=1 ./pkg/crdb/... ./pkg/cmd/ (worktree, both)",
-                   "git -C /repo apply patch.diff; ./check %s --tier quick; git -C /repo checkout -- ." % pid]
+                   ("patch.diff applied to a private copy of /repo's tree; VERIF_REPO=<copy> ./check %s --tier quick" % pid) if private else
+                   ("git -C /repo apply patch.diff; ./check %s --tier quick; git -C /repo checkout -- ." % pid)]
     print("check exit=%s" % rc)
     for l in lines:
         print("  " + l)
